@@ -316,7 +316,7 @@ pub fn run(ctx: &Ctx) -> (Stats, Report) {
     let s = pt_run(
         "C16/add_days",
         seed,
-        (if ctx.thorough { 32_000_000 } else { 1_600_000 }) / THREADS as u32,
+        (if ctx.thorough { 160_000_000 } else { 1_600_000 }) / THREADS as u32,
         THREADS,
         || {
             (
